@@ -212,6 +212,7 @@ def run_schedule(nworkers, rows, chooser):
     def row_func(row):
         row['done'] += 1
         row['log'].append('x')      # a nested value: an extra application on a shallow copy of the row shows here
+        row['twice'] = 2 * row.pop('tmp')     # a key removed and a key added: the delivered row is the function's result
 
     def consume():
         try:
@@ -250,7 +251,7 @@ def gen_rows(n, pattern):
     rows = []
     for i in range(n):
         sel = {'none': False, 'all': True, 'some': i % 2 == 1, 'late': i >= n - 1, 'first': i == 0}[pattern]
-        rows.append({'id': i, 'sel': sel, 'done': 0, 'log': []})
+        rows.append({'id': i, 'sel': sel, 'done': 0, 'log': [], 'tmp': i + 1})
     return rows
 
 
@@ -284,6 +285,11 @@ def check_run(rows, delivered, err):
         if r['done'] != want or len(r['log']) != want:
             return 'row %d (selected=%s) had the row function applied %d times (%d times on its nested value)' % (
                 r['id'], rows[r['id']]['sel'], r['done'], len(r['log']))
+        exp = dict(rows[r['id']])
+        if want:
+            exp.update(done=1, log=['x'], twice=2 * exp.pop('tmp'))
+        if r != exp:
+            return 'row %d (selected=%s) was delivered as %r, the row function\'s result is %r' % (r['id'], rows[r['id']]['sel'], r, exp)
     return None
 
 
@@ -296,6 +302,7 @@ def run_impl(case):
         def rf(row):
             row['done'] += 1
             row['log'].append('x')
+            row['twice'] = 2 * row.pop('tmp')
         with quiet():
             got = list(PMOD.fork(iter(copy.deepcopy(rows)), rf, n, lambda r: r['sel']))
         return {'problem': check_run(rows, got, []), 'seconds': round(time.time() - t0, 1), 'schedules': 1}
